@@ -59,6 +59,35 @@ def origsendingtime_rule(ctx, f, RID, prog=None):
         ctx.check(not rs, RID, S + 'sequence_check#lt.badtime.throws', a.loc, 'OrigSendingTime after SendingTime: no normal return')
 
 
+def enforce_gate_rule(ctx, prog, RID):
+    """enforce() hands a message on (returns false) exactly when sequence_check accepted it - also C20: a replayed message the counterparty sends to fill a gap
+    is accepted by sequence_check and must reach the application"""
+    en = prog.fn1(S + 'enforce')
+    ctx.saw(en)
+    ecfg = en.cfg
+    sc = q.branches(en, lambda a: any(x.callee_qp == S + 'sequence_check' for x in q.calls_in(a)) or (a.is_call and a.callee_qp == S + 'sequence_check'))
+    if not sc:
+        # second idiom: the verdict is returned as an expression of the call (`return !sequence_check(..)`)
+        rts = [n for n in en.all_nodes() if n.k == 'ReturnStmt' and n.children and any(x.callee_qp == S + 'sequence_check' for x in q.calls_in(n.children[0]))]
+        ctx.need(rts, 'sequence_check is neither a decision nor part of a return expression in enforce')
+        for r_ in rts:
+            call_ = [x for x in q.calls_in(r_.children[0]) if x.callee_qp == S + 'sequence_check'][0]
+            vt = q.eval_int(r_.children[0], {}, atom=lambda n, _c=call_: 1 if n == _c else None)
+            vf = q.eval_int(r_.children[0], {}, atom=lambda n, _c=call_: 0 if n == _c else None)
+            ctx.check(vt == 0, RID, S + 'enforce#accept', r_.loc, 'sequence_check true (acceptable) => enforce returns false (deliver)')
+            ctx.check(vf == 1, RID, S + 'enforce#refuse', r_.loc, 'sequence_check false (gap) => enforce returns true (do not deliver)')
+    for br in sc:
+        b, atom, pol = br
+        if atom.is_call and atom.callee_qp == S + 'sequence_check':
+            rs_t = q.reachable_returns(ecfg, q.atom_edge(ecfg, br, True))
+            rs_f = q.reachable_returns(ecfg, q.atom_edge(ecfg, br, False))
+            ctx.check(rs_t and all(q.return_value(r) == 0 for r in rs_t), RID, S + 'enforce#accept', atom.loc,
+                      'sequence_check true (acceptable) => enforce returns false (deliver)')
+            ctx.check(rs_f and all(q.return_value(r) == 1 for r in rs_f), RID, S + 'enforce#refuse', atom.loc,
+                      'sequence_check false (gap) => enforce returns true (do not deliver)')
+
+
+
 def run(ctx):
     thorough = ctx.tier == 'thorough'
     prog = Program(UNITS + APP_UNITS)
@@ -203,30 +232,7 @@ def run(ctx):
     r_eq, t_eq, reach_eq = rets('EQ')
     ctx.check(r_eq and all(q.return_value(r) == 1 for r in r_eq) and not t_eq, 'R19.2', S + 'sequence_check#eq.accept', f.loc,
               'seqnum = expected: returns true, throws nothing')
-    # enforce(): gate polarity
-    en = prog.fn1(S + 'enforce')
-    ctx.saw(en)
-    ecfg = en.cfg
-    sc = q.branches(en, lambda a: any(x.callee_qp == S + 'sequence_check' for x in q.calls_in(a)) or (a.is_call and a.callee_qp == S + 'sequence_check'))
-    if not sc:
-        # second idiom: the verdict is returned as an expression of the call (`return !sequence_check(..)`)
-        rts = [n for n in en.all_nodes() if n.k == 'ReturnStmt' and n.children and any(x.callee_qp == S + 'sequence_check' for x in q.calls_in(n.children[0]))]
-        ctx.need(rts, 'sequence_check is neither a decision nor part of a return expression in enforce')
-        for r_ in rts:
-            call_ = [x for x in q.calls_in(r_.children[0]) if x.callee_qp == S + 'sequence_check'][0]
-            vt = q.eval_int(r_.children[0], {}, atom=lambda n, _c=call_: 1 if n == _c else None)
-            vf = q.eval_int(r_.children[0], {}, atom=lambda n, _c=call_: 0 if n == _c else None)
-            ctx.check(vt == 0, 'R19.2', S + 'enforce#accept', r_.loc, 'sequence_check true (acceptable) => enforce returns false (deliver)')
-            ctx.check(vf == 1, 'R19.2', S + 'enforce#refuse', r_.loc, 'sequence_check false (gap) => enforce returns true (do not deliver)')
-    for br in sc:
-        b, atom, pol = br
-        if atom.is_call and atom.callee_qp == S + 'sequence_check':
-            rs_t = q.reachable_returns(ecfg, q.atom_edge(ecfg, br, True))
-            rs_f = q.reachable_returns(ecfg, q.atom_edge(ecfg, br, False))
-            ctx.check(rs_t and all(q.return_value(r) == 0 for r in rs_t), 'R19.2', S + 'enforce#accept', atom.loc,
-                      'sequence_check true (acceptable) => enforce returns false (deliver)')
-            ctx.check(rs_f and all(q.return_value(r) == 1 for r in rs_f), 'R19.2', S + 'enforce#refuse', atom.loc,
-                      'sequence_check false (gap) => enforce returns true (do not deliver)')
+    enforce_gate_rule(ctx, prog, 'R19.2')
 
     # ---------------- R19.3 provenance of the sequence number in process()
     pr = prog.fn1(S + 'process')
